@@ -54,7 +54,7 @@ func collect(root proto.Message, pred func(p pos) bool) []pos {
 }
 
 // Names of the mutators, in the order Apply numbers them.
-var Names = []string{"clear-submessage", "zero-scalar", "dup-list-element", "undefined-enum", "invalid-utf8", "boundary-int", "empty-string", "junk-string", "drop-list-element", "set-unset-submessage"}
+var Names = []string{"clear-submessage", "zero-scalar", "dup-list-element", "undefined-enum", "invalid-utf8", "boundary-int", "empty-string", "junk-string", "drop-list-element", "set-unset-submessage", "long-bytes"}
 
 var boundaries = []uint64{0, 1, 15, 16, 1048575, 1048576, 1 << 32, 1<<32 + 100, 1 << 63, ^uint64(0)}
 
@@ -146,6 +146,20 @@ func Apply(msg proto.Message, k int, c Chooser) bool {
 		p := ps[c.Intn(len(ps), "which")]
 		nums := []protoreflect.EnumNumber{99, -1, 1000000, 2147483647}
 		p.m.Set(p.fd, protoreflect.ValueOfEnum(nums[c.Intn(len(nums), "enum")]))
+		return true
+	case "long-bytes":
+		// a bytes field grows beyond the longest value the generators use (8 bytes)
+		ps := collect(msg, func(p pos) bool { return p.idx < 0 && !p.fd.IsList() && p.fd.Kind() == protoreflect.BytesKind })
+		if len(ps) == 0 {
+			return false
+		}
+		p := ps[c.Intn(len(ps), "which")]
+		n := []int{9, 16, 255, 4096}[c.Intn(4, "len")]
+		b := make([]byte, n)
+		for i := range b {
+			b[i] = byte('a' + i%26)
+		}
+		p.m.Set(p.fd, protoreflect.ValueOfBytes(b))
 		return true
 	case "invalid-utf8", "empty-string", "junk-string":
 		ps := collect(msg, func(p pos) bool { return p.idx < 0 && !p.fd.IsList() && p.fd.Kind() == protoreflect.StringKind })
